@@ -1171,6 +1171,12 @@ func (x *Exec) atSite(fr *Frame, st *State, kind string, ord int, vals map[strin
 		fr.atUsed()[k] = true
 		ctx := x.ownCtx(fr, st, true)
 		ctx.src = at.Clause.Src
+		for n, v := range x.iterVars(fr, st, nil) {
+			if _, dup := ctx.vars[n]; !dup {
+				ctx.order = append(ctx.order, scopeVar{n, types.Typ[types.Int]})
+				ctx.vars[n] = &binding{val: v, typ: types.Typ[types.Int]}
+			}
+		}
 		for n, v := range vals {
 			if _, dup := ctx.vars[n]; !dup {
 				ctx.order = append(ctx.order, scopeVar{n, typs[n]})
